@@ -55,6 +55,7 @@ fn main() {
         "C04" => props::c04::run_c04(tier),
         "C05" => props::c04::run_c05(tier),
         "C06" => props::c06::run(tier),
+        "C20" => props::c20::run(tier),
         _ => {
             eprintln!("unknown property {}", id);
             2
